@@ -111,9 +111,11 @@ pub enum Edit {
     AnonymousOperation,
     BareSelectionSet,
     MissingRootType,
+    DuplicateFragmentName,
+    DuplicateOperationName,
 }
 
-pub const ALL_EDITS: [Edit; 15] = [
+pub const ALL_EDITS: [Edit; 17] = [
     Edit::UnknownField,
     Edit::SubselectionOnLeaf,
     Edit::NoSelectionOnComposite,
@@ -129,6 +131,8 @@ pub const ALL_EDITS: [Edit; 15] = [
     Edit::AnonymousOperation,
     Edit::BareSelectionSet,
     Edit::MissingRootType,
+    Edit::DuplicateFragmentName,
+    Edit::DuplicateOperationName,
 ];
 
 impl Edit {
@@ -149,6 +153,8 @@ impl Edit {
             Edit::AnonymousOperation => "anonymous-operation",
             Edit::BareSelectionSet => "bare-selection-set",
             Edit::MissingRootType => "missing-root-type",
+            Edit::DuplicateFragmentName => "duplicate-fragment-name",
+            Edit::DuplicateOperationName => "duplicate-operation-name",
         }
     }
     /// document-level edits are applied once per operation, not per position
@@ -161,6 +167,8 @@ impl Edit {
                 | Edit::AnonymousOperation
                 | Edit::BareSelectionSet
                 | Edit::MissingRootType
+                | Edit::DuplicateFragmentName
+                | Edit::DuplicateOperationName
         )
     }
 }
@@ -359,6 +367,27 @@ pub fn apply(s: &ASchema, doc: &ADoc, edit: Edit, pos: Option<&Pos>, op_idx: usi
             op.name = String::new();
             op.kind = "";
             desc = format!("operation {} written as a bare selection set", op_idx);
+        }
+        Edit::DuplicateFragmentName => {
+            // a second fragment with an already used name, on another type, whose body would be invalid
+            // there: if the two definitions are merged the body is never checked against its own type
+            if op_idx != 0 {
+                return None;
+            }
+            let first = d.frags.get(pick % d.frags.len().max(1))?.clone();
+            let other = disjoint_type(s, &first.on, pick).or_else(|| s.query.clone())?;
+            d.frags.push(AFrag { name: first.name.clone(), on: other.clone(), sels: vec![ASel::Typename, ASel::Inline { on: first.on.clone(), sub: vec![ASel::Typename] }] });
+            desc = format!("second fragment named `{}` (on `{}`)", first.name, other);
+        }
+        Edit::DuplicateOperationName => {
+            let op = d.ops.get(op_idx)?.clone();
+            if op.kind != "query" {
+                return None;
+            }
+            let mut dup = op.clone();
+            dup.vars.clear();
+            d.ops.push(dup);
+            desc = format!("second operation named `{}`", op.name);
         }
         Edit::MissingRootType => {
             let op = d.ops.get(op_idx)?;
